@@ -41,6 +41,8 @@ def b(x):
 
 def audit(repo):
     h = strip_cpp_comments(read(repo, HEADER))
+    # the add-only verification hook (#ifdef M17CXX_VERIF ... #endif) is not part of the audited text
+    h = re.sub(r"#ifdef\s+M17CXX_VERIF\b.*?#endif[^\n]*\n", "", h, flags=re.S)
     find1(r"mutable\s+mutex_type\s+mutex_\s*;", h, "queue::mutex_ member")
     find1(r"enum\s+class\s+State\s*\{\s*OPEN\s*,\s*CLOSING\s*,\s*CLOSED\s*\}", h, "queue::State")
     res = {}
